@@ -632,7 +632,7 @@ func TestVerif_C13_CoordinatedSchedules(t *testing.T) {
 		pauseIn := rapid.SampledFrom([]string{"Permissions", "Permissions", "Joined", "PushClient", "GetStats"}).Draw(t, "pauseIn")
 		first := rapid.SampledFrom([]string{"join", "join", "leave-op", "lock", "reload", "stats"}).Draw(t, "pausedOperation")
 		second := rapid.SampledFrom([]string{"whip-close", "whip-close", "whip-offer", "whip-offer", "whip-offer-then-close", "join", "leave", "kick-whip", "stats", "getclients", "web-offer", "web-offer",
-			"recorder-asks-whip", "recorder-asks-whip", "recorder-asks-everybody", "recorder-asks-everybody"}).Draw(t, "meanwhile")
+			"recorder-asks-whip", "recorder-asks-whip", "recorder-asks-everybody", "recorder-asks-everybody", "reload-unreadable", "reload-unreadable", "reload-missing"}).Draw(t, "meanwhile")
 		offerSDP := c13WhipOffer()
 		// a recording client asks the WHIP member for its streams; like the real recorder, it warns the group's operators
 		// (which walks the members under the group's lock) when it is pushed a stream it cannot use
@@ -738,6 +738,17 @@ func TestVerif_C13_CoordinatedSchedules(t *testing.T) {
 				stats.GetGroups()
 			case "getclients":
 				g.GetClients(nil)
+			case "reload-unreadable", "reload-missing":
+				// the definition of a group that has members cannot be read at a reload (being edited by hand, or removed):
+				// the reload fails, the group stays
+				fn := filepath.Join(group.Directory, gname+".json")
+				if second == "reload-missing" {
+					os.Remove(fn)
+				} else {
+					os.WriteFile(fn, []byte(`{"users": {`), 0o600)
+				}
+				group.Add(gname, nil)
+				writeGroupFile(gname, desc)
 			case "recorder-asks-whip":
 				// the state right after the handlers' helper has taken its snapshot of the members: the WHIP member is asked
 				W.RequestConns(R, g, "")
